@@ -1,4 +1,8 @@
 mod c03;
+mod c11;
+mod c13;
+mod report;
+mod synth;
 mod corpus;
 mod docs;
 mod framework;
@@ -14,7 +18,12 @@ mod world;
 use framework::{Ctx, Property, Tier, DEFAULT_SEED};
 
 fn props() -> Vec<Box<dyn Property>> {
-    vec![Box::new(c03::C03)]
+    vec![
+        Box::new(c03::C03),
+        Box::new(c11::ReportProp { id: "C11" }),
+        Box::new(c11::ReportProp { id: "C12" }),
+        Box::new(c13::C13),
+    ]
 }
 
 fn ctx_from_env(tier: Tier) -> Result<Ctx, String> {
